@@ -378,6 +378,11 @@ def generate(tier, rng):
     yield make_case('openapi', [{'template': 'model', 'endpoint': '', 'name': 'a', 'ann': {'prefix': 'P'}},
                                 {'template': 'nested', 'endpoint': '', 'name': 'b', 'ann': {}}], [], ['pydantic'])
     yield make_case('openrpc', [{'template': 'scalar', 'endpoint': '', 'name': 'a', 'ann': {}}], [], ['base'])
+    # two different methods exposed under the SAME name on two endpoints, kept apart by their own component prefixes
+    for t1, t2 in (('scalar', 'model'), ('model', 'nested'), ('container', 'scalar')):
+        for gens in (1, 2):
+            yield make_case('openapi', [{'template': t1, 'endpoint': 'v1', 'name': 'fetch', 'ann': {'prefix': 'V1'}},
+                                        {'template': t2, 'endpoint': 'v2', 'name': 'fetch', 'ann': {'prefix': 'V2'}}], [], ['pydantic'], generations=gens)
     for kind, stack in (('openapi', ['docstring']), ('openrpc', ['docstring'])):
         yield make_case(kind, [{'template': 'untyped', 'endpoint': '', 'name': 'u', 'ann': {}}], [], stack)
     yield make_case('openapi', [{'template': 'scalar', 'endpoint': 'v1', 'name': 'get', 'ann': {}},
